@@ -149,6 +149,7 @@ func selfTest(ctx *core.Ctx) error {
 		{"MC_Copier_neg_f10once.cfg", "Once"}, {"MC_Copier_neg_recordafter.cfg", "Terminates"},
 		{"MC_Copier_neg_dropparms.cfg", "Shape"}, {"MC_Copier_neg_verbatim.cfg", "Shape"},
 		{"MC_Copier_neg_keynum.cfg", "Shape"}, {"MC_Copier_neg_cryptprobe.cfg", "Shape"},
+		{"MC_Copier_neg_inlinedasis.cfg", "Shape"},
 	} {
 		res, err := ctx.TLC(core.TLCOpts{Dir: "graph", Module: "MC_Copier", Cfg: nc.cfg, Workers: 4, Mode: "negative-control", XssMB: 512})
 		if err != nil {
@@ -166,7 +167,7 @@ func selfTest(ctx *core.Ctx) error {
 	if res.Invariant == "" {
 		return core.Infra("self-test: the model of the copier as coded should not satisfy the design invariants")
 	}
-	ctx.Logf("self-test (ii): the copier as coded violates Shape (F4), NoPanic (F4b), Sharing and Once (F10); trans recorded after recursing violates Terminates; dropped /DecodeParms, verbatim reuse of encrypted bytes, trans keyed by object number and an unresolved first /Filter element violate Shape")
+	ctx.Logf("self-test (ii): the copier as coded violates Shape (F4), NoPanic (F4b), Sharing and Once (F10); trans recorded after recursing violates Terminates; dropped /DecodeParms, verbatim reuse of encrypted bytes, trans keyed by object number, an unresolved first /Filter element and untranslated references inside /DecodeParms violate Shape")
 
 	// (iii) a wrong expectation of the generated table
 	g := Graph{}
